@@ -78,12 +78,24 @@ func c14RecordTraversal(c *Ctx, f srcFile, r *rand.Rand) traceItem {
 		}
 		isAbort := strings.HasPrefix(rule.Name, "post-false")
 		// dstutil
-		var dlog []string
+		var dlog, dnil, anil []string
+		// callbacks for empty child slots (Node() == nil) are made by astutil as well; the slots astutil
+		// v0.1.12 does not know (TypeParams) and the comment fields dst does not have are left out
+		slot := func(parent interface{}, name string) (string, bool) {
+			if name == "TypeParams" || name == "Doc" || name == "Comment" || parent == nil {
+				return "", false
+			}
+			t := fmt.Sprintf("%T", parent)
+			return strings.NewReplacer("*ast.", "", "*dst.", "").Replace(t) + "." + name, true
+		}
 		k, posts, depth := 0, 0, 0
 		var result dst.Node
 		msg := guard(func() {
 			result = dstutil.Apply(df, func(cu *dstutil.Cursor) bool {
 				if cu.Node() == nil {
+					if s, ok := slot(cu.Parent(), cu.Name()); ok {
+						dnil = append(dnil, s)
+					}
 					return true
 				}
 				k++
@@ -129,8 +141,14 @@ func c14RecordTraversal(c *Ctx, f srcFile, r *rand.Rand) traceItem {
 		k, posts, depth = 0, 0, 0
 		amsg := guard(func() {
 			astutil.Apply(af, func(cu *astutil.Cursor) bool {
+				if cu.Node() == nil {
+					if s, ok := slot(cu.Parent(), cu.Name()); ok {
+						anil = append(anil, s)
+					}
+					return true
+				}
 				switch cu.Node().(type) {
-				case nil, *ast.Comment, *ast.CommentGroup:
+				case *ast.Comment, *ast.CommentGroup:
 					return true
 				}
 				k++
@@ -172,6 +190,19 @@ func c14RecordTraversal(c *Ctx, f srcFile, r *rand.Rand) traceItem {
 				aa = alog[i]
 			}
 			c.Fail(Finding{Sig: "traversal-differs-from-astutil", Input: key, What: fmt.Sprintf("callback %d: dstutil %q, astutil %q (%s)", i+1, dd, aa, f.Path), Replay: obj{"kind": "c14trav", "path": f.Path}})
+		} else if strings.Join(dnil, " ") != strings.Join(anil, " ") {
+			i := 0
+			for i < len(dnil) && i < len(anil) && dnil[i] == anil[i] {
+				i++
+			}
+			dd, aa := "<end>", "<end>"
+			if i < len(dnil) {
+				dd = dnil[i]
+			}
+			if i < len(anil) {
+				aa = anil[i]
+			}
+			c.Fail(Finding{Sig: "empty-slot-callbacks-differ-from-astutil", Input: key, What: fmt.Sprintf("callbacks for empty child slots: dstutil makes %d, astutil %d; the %d-th is %s for dstutil, %s for astutil (%s)", len(dnil), len(anil), i+1, dd, aa, f.Path), Replay: obj{"kind": "c14trav", "path": f.Path}})
 		}
 	}
 	c.Traces(int64(runs))
